@@ -33,6 +33,7 @@ THEOREMS = [
     'PbBss.C02.em_monotone_gmm_full',
     'PbBss.C02.em_monotone_cwmm',
     'PbBss.C02.em_monotone_cacgmm',
+    'PbBss.C02.em_monotone_gcacgmm',
 ]
 ASSUMPTIONS = [
     "guards inactive on the judged stretch of the history (weights positive, E-step denominator clamp inactive, class mass >= tiny, "
@@ -43,8 +44,8 @@ ASSUMPTIONS = [
     "with a saliency the monitored quantity is the saliency-weighted log-likelihood (DESIGN.md 5c)",
     "sklearn's precision-Cholesky routine is an external with the contract PcholOk (upper triangular P, positive diagonal, "
     "(P P^T) Sigma = 1, log-det = sum log P_dd); the driver uses a Cholesky routine of its own on Float",
-    "GCACGMM: the M-step inequality is proved for the two-stream product family (product_mstep_Q), but GCACGMM is not an instance "
-    "of the executable EM model; its trajectories are covered by the search on the real code",
+    "GCACGMM = prodFamily (sliced cACG) Gaussian with the inline weight update (WeightRule.tinyFloor); unit stream weights, no "
+    "inline permutation alignment, affiliation_eps = 0 in the model (the search also runs eps = 1e-10 and judges only guard-free stretches)",
 ]
 
 from pb_bss.distribution import CACGMMTrainer  # noqa: E402
@@ -84,7 +85,7 @@ def _header(F, K, N, D, rule, wca, saliency):
     f_idx = np.repeat(np.arange(F), N)
     n_idx = np.tile(np.arange(N), F)
     uniform = 0
-    if wca == -2:
+    if wca == -2 or (isinstance(wca, tuple) and -2 in wca):
         uniform, grp, G = 1, np.zeros(NT, dtype=int), 1
     elif wca == (-1,):
         grp, G = f_idx, F
@@ -109,6 +110,8 @@ def _groups(line):
 def _corr_case(rng, family):
     """one step-wise EM correspondence case: the code's model after iteration i and after i+1"""
     fam = eu.FAMILIES[family]
+    if fam.has_embedding:
+        return _corr_case_integration(rng, family)
     K = int(rng.integers(2, 5))
     D = int(rng.integers(2, 6))
     wca = [(-1,), -2, (-3,), (-3, -1)][int(rng.integers(4))]
@@ -128,7 +131,35 @@ def _corr_case(rng, family):
     return dict(family=family, F=F, K=K, D=D, N=N, wca=wca, y=y, init=init, opts=opts, i=i, saliency=skind)
 
 
+def _corr_case_integration(rng, family):
+    """GCACGMM: observations (F, T, D) + embeddings (F, T, E); one cACG per bin and class, one Gaussian per class"""
+    K = int(rng.integers(2, 4))
+    D = int(rng.integers(2, 5))
+    E = int(rng.integers(2, 5))
+    F = int(rng.integers(1, 4))
+    wca = [(-1,), (-3,), (-3, -1), (-3, -2, -1)][int(rng.integers(4))]
+    N = 4 * K * max(D, E) + int(rng.integers(0, 8))
+    y = eu.general_position(rng, (F,), N, D, K, True)
+    e = eu.general_position(rng, (F,), N, E, K, False)
+    init, _ = eu.positive_start(rng, (F,), K, N)
+    skind = str(rng.choice(['none', 'random', 'integer']))
+    sal = eu.make_saliency(rng, (F,), N, skind)
+    opts = {'weight_constant_axis': list(wca), 'saliency': sal,
+            'covariance_norm': ['eigenvalue', 'trace', False][int(rng.integers(3))], 'affiliation_eps': 0.0}
+    return dict(family=family, F=F, K=K, D=D, E=E, N=N, wca=wca, y=y, e=e, init=init, opts=opts, i=int(rng.integers(1, 6)),
+                saliency=skind)
+
+
 def _line(c, m):
+    if c['family'].startswith('gcacgmm'):
+        F, K, D, E, N = c['F'], c['K'], c['D'], c['E'], c['N']
+        hd = _header(F, K, N, D, 2, c['wca'], c['opts']['saliency'])
+        nrm = {'eigenvalue': 0, 'trace': 1, False: 2}[c['opts']['covariance_norm']]
+        w = _flat_kn(eu.FAMILIES[c['family']].weight(m), F, K, N)
+        op = {'gcacgmm-spherical': 'gcacgmm-sph', 'gcacgmm-diagonal': 'gcacgmm-diag', 'gcacgmm-full': 'gcacgmm-full'}[c['family']]
+        return f'{op} {hd} {E} {nrm} {fbits(np.array(1e-10))} {cbits(eu.unit(c["y"]))} {fbits(c["e"])} {fbits(w)} ' \
+               f'{cbits(m.cacg.covariance_eigenvectors)} {fbits(m.cacg.covariance_eigenvalues)} {fbits(m.gaussian.mean)} ' \
+               f'{fbits(m.gaussian.covariance)}'
     """driver line for the code's model `m` (iterate i) of case `c`; returns (line, expectations needed later)"""
     family, F, K, D, N = c['family'], c['F'], c['K'], c['D'], c['N']
     sal = c['opts']['saliency']
@@ -153,7 +184,7 @@ def _line(c, m):
 def _compare(ctx, c, m, m_next, out):
     family, F, K, D, N = c['family'], c['F'], c['K'], c['D'], c['N']
     fam = eu.FAMILIES[family]
-    data = {'y': c['y']}
+    data = {'y': c['y'], 'e': c.get('e')}
     sal = c['opts']['saliency']
     g = _groups(out)
     tag = f'{family} K={K} D={D} N={N} F={F} wca={c["wca"]} saliency={c["saliency"]} i={c["i"]}'
@@ -177,9 +208,23 @@ def _compare(ctx, c, m, m_next, out):
     ok, d = _close(g[1].reshape(K, F * N), post, scale=1.0)
     rep('eStep', ok, d)
     # M-step: weights of iterate i+1
-    ok, d = _close(g[2].reshape(K, F * N), _flat_kn(m_next.weight, F, K, N), scale=1.0)
+    ok, d = _close(g[2].reshape(K, F * N), _flat_kn(fam.weight(m_next), F, K, N), scale=1.0)
     rep('mWeight', ok, d)
-    if family.startswith('gmm-'):
+    if family.startswith('gcacgmm'):
+        aff, q = m._predict(eu.unit(c['y']), c['e'], affiliation_eps=0.0, inline_permutation_alignment=False)
+        ok, d = _close(g[3].reshape(K, F * N), _flat_kn(q, F, K, N), scale=float(np.max(q)))
+        rep('eStep-quadratic-form', ok, d)
+        cn = m_next.cacg
+        ok, d = _close(np.sort(g[4].reshape(F, K, D), axis=-1), np.sort(np.reshape(cn.covariance_eigenvalues, (F, K, D)), axis=-1))
+        rep('mstep-eigenvalues', ok, d)
+        ok, d = _close(g[5].view(np.complex128).reshape(F, K, D, D), np.reshape(cn.covariance, (F, K, D, D)))
+        rep('mstep-covariance', ok, d)
+        gn = m_next.gaussian
+        ok, d = _close(g[6].reshape(np.shape(gn.mean)), gn.mean)
+        rep('mstep-gaussian-mean', ok, d)
+        ok, d = _close(g[7].reshape(np.shape(gn.covariance)), gn.covariance)
+        rep('mstep-gaussian-covariance', ok, d)
+    elif family.startswith('gmm-'):
         gn = m_next.gaussian
         ok, d = _close(g[3].reshape(F, K, D), np.reshape(gn.mean, (F, K, D)))
         rep('mstep-mean', ok, d)
@@ -214,13 +259,14 @@ _DISAGREE = []          # correspondence cases on which model and code differ: t
 
 def corr(ctx):
     rng = ctx.rng
-    fams = ['gmm-spherical', 'gmm-diagonal', 'cwmm', 'cacgmm', 'gmm-full']
-    n = ctx.n(80, 1500)
+    fams = ['gmm-spherical', 'gmm-diagonal', 'cwmm', 'cacgmm', 'gmm-full', 'gcacgmm-spherical', 'gcacgmm-diagonal',
+            'gcacgmm-full']
+    n = ctx.n(120, 2000)
     cases, lines, models = [], [], []
     for j in range(n):
         c = _corr_case(rng, fams[j % len(fams)])
         fam = eu.FAMILIES[c['family']]
-        data = {'y': c['y'] if c['F'] > 1 or c['family'].startswith('gmm-') else c['y']}
+        data = {'y': c['y'], 'e': c.get('e')}
         try:
             m = fam.fit(data, c['init'], c['i'], c['opts'])
             m_next = fam.fit(data, c['init'], c['i'] + 1, c['opts'])
